@@ -6,23 +6,23 @@ set_option linter.unusedSimpArgs false
 namespace BioCantor.Proofs.Query
 open BioCantor BioCantor.Spec BioCantor.Spec.Query BioCantor.Model.Query
 
-/-- modelled domain of parents (the complement are findings: F-C09b sequence-less parent — admitted once
-    `repairedC09b` is flipped —, F-C08a variant members rebuilt on a chunk — only while
-    `variantFromDictDropsParent`) -/
+/-- modelled domain of parents: what `seq_to_parent` / `seq_chunk_to_parent` and the member constructors establish
+    (a non-empty sequence, members of a whole chromosome lie on it), and — the complement is finding F-C09d —
+    explicit bounds on a chunk either miss the chunk or lie within it -/
 def ParWF (src : Source) : Prop :=
   match src.par with
   | .none => True
-  | .noseq => repairedC09b = true      -- as coded: F-C09b (every non-identity query raises NullSequence)
-  | .whole seq => src.bounds = none ∧
-      ∀ c ∈ src.children, (variantFromDictDropsParent = true → c.kind ≠ .var) ∧
-        ∀ g ∈ c.gcs, 0 ≤ g.start ∧ g.stop ≤ seq.length
-  | .chunk cs _ => src.bounds = none ∧ 0 ≤ cs ∧
-      ∀ c ∈ src.children, (variantFromDictDropsParent = true → c.kind ≠ .var)
+  | .noseq => True
+  | .whole seq => seq ≠ [] ∧ ∀ c ∈ src.children, ∀ g ∈ c.gcs, 0 ≤ g.start ∧ g.stop ≤ seq.length
+  | .chunk cs seq => seq ≠ [] ∧ 0 ≤ cs ∧
+      ∀ bs be, src.bounds = some (bs, be) → max bs cs < min be (cs + seq.length) →
+        cs ≤ bs ∧ be ≤ cs + seq.length
 
 /-- What the real constructors establish + the modelled domain. -/
 structure SrcWF (src : Source) : Prop where
   hull : ∀ c ∈ src.children, ChildHull c
   guids : (src.children.map Child.guid).Nodup
+  cons : constructible src = true
   par : ParWF src
 
 theorem specBounds_eq_self {src : Source} {b : Int × Int} (h : selfBounds src = some b) : specBounds src = some b := by
@@ -91,21 +91,127 @@ theorem resultBounds_contains (q : PosQ) (s e : Int) (kept : List Child) :
     exact ⟨(foldl_min_spec _ s).2.1, (foldl_max_spec _ e).2.1⟩
   · exact ⟨Int.le_refl _, Int.le_refl _⟩
 
+/-! ### bounds and the located range -/
+
+theorem checkSource_ok {src : Source} (h : constructible src = true) : checkSource src = .ok () := by
+  unfold constructible at h
+  unfold checkSource
+  cases hb : src.bounds with
+  | none => rfl
+  | some x =>
+    obtain ⟨bs, be⟩ := x
+    rw [hb] at h
+    simp only [Bool.and_eq_true, decide_eq_true_eq] at h
+    have h1 : (0 ≤ bs ∧ bs ≤ be) := h.1
+    simp only [h1, not_true_eq_false, if_false]
+    cases hp : src.par with
+    | whole seq =>
+      rw [hp] at h
+      simp only [decide_eq_true_eq] at h
+      have : ¬ be > (seq.length : Int) := by omega
+      simp only [this, if_false]
+      rfl
+    | none => rfl
+    | noseq => rfl
+    | chunk _ _ => rfl
+
+/-- whole chromosome: the bounds lie on the sequence -/
+theorem bounds_whole {src : Source} (wf : SrcWF src) {seq : List Char} (hp : src.par = .whole seq) {bs be : Int}
+    (hb : selfBounds src = some (bs, be)) : 0 ≤ bs ∧ bs ≤ be ∧ be ≤ seq.length := by
+  have hc := wf.cons
+  unfold constructible at hc
+  cases hbb : src.bounds with
+  | none =>
+    have := selfBounds_whole hp hbb
+    rw [hb] at this
+    simp only [Option.some.injEq, Prod.mk.injEq] at this
+    omega
+  | some x =>
+    have hs : selfBounds src = some x := by unfold selfBounds; rw [hbb]
+    rw [hb] at hs
+    simp only [Option.some.injEq] at hs
+    subst hs
+    rw [hbb, hp] at hc
+    simp only [Bool.and_eq_true, decide_eq_true_eq] at hc
+    omega
+
+/-- chunk: the bounds are a valid interval, and if they meet the chunk they lie within it -/
+theorem bounds_chunk {src : Source} (wf : SrcWF src) {cs : Int} {seq : List Char} (hp : src.par = .chunk cs seq)
+    {bs be : Int} (hb : selfBounds src = some (bs, be)) :
+    bs ≤ be ∧ (max bs cs < min be (cs + seq.length) → cs ≤ bs ∧ be ≤ cs + seq.length) := by
+  have hc := wf.cons
+  have hpar := wf.par
+  unfold ParWF at hpar
+  rw [hp] at hpar
+  unfold constructible at hc
+  cases hbb : src.bounds with
+  | none =>
+    have := selfBounds_chunk hp hbb
+    rw [hb] at this
+    simp only [Option.some.injEq, Prod.mk.injEq] at this
+    omega
+  | some x =>
+    have hs : selfBounds src = some x := by unfold selfBounds; rw [hbb]
+    rw [hb] at hs
+    simp only [Option.some.injEq] at hs
+    subst hs
+    rw [hbb] at hc
+    simp only [Bool.and_eq_true, decide_eq_true_eq] at hc
+    exact ⟨hc.1.2, hpar.2.2 bs be hbb⟩
+
+theorem locRange_whole {src : Source} (wf : SrcWF src) {seq : List Char} (hp : src.par = .whole seq) {bs be : Int}
+    (hb : selfBounds src = some (bs, be)) : locRange src = some (bs, be) := by
+  have h := bounds_whole wf hp hb
+  unfold locRange
+  rw [specBounds_eq_self hb, hp]
+  simp only [Par.seqAt, Int.zero_add]
+  have e1 : max bs 0 = bs := by omega
+  have e2 : min be (seq.length : Int) = be := by omega
+  rw [e1, e2]
+
+theorem locRange_chunk {src : Source} (wf : SrcWF src) {cs : Int} {seq : List Char} (hp : src.par = .chunk cs seq)
+    {bs be : Int} (hb : selfBounds src = some (bs, be)) :
+    locRange src = if max bs cs < min be (cs + seq.length) then some (bs, be) else none := by
+  have h := bounds_chunk wf hp hb
+  unfold locRange
+  rw [specBounds_eq_self hb, hp]
+  simp only [Par.seqAt]
+  split
+  · rename_i hov
+    have := h.2 hov
+    have e1 : max bs cs = bs := by omega
+    have e2 : min be (cs + (seq.length : Int)) = be := by omega
+    rw [e1, e2]
+  · rfl
+
+theorem locRange_noseq {src : Source} (hp : src.par.hasSeq = false) : locRange src = none := by
+  unfold locRange
+  cases hpp : src.par with
+  | none => cases specBounds src <;> rfl
+  | noseq => cases specBounds src <;> rfl
+  | whole _ => rw [hpp] at hp; cases hp
+  | chunk _ _ => rw [hpp] at hp; cases hp
+
+/-- `chunk_relative_location.parent and .parent.sequence` = the collection has sequence somewhere -/
+theorem hasLocSeq_eq {src : Source} (wf : SrcWF src) {bs be : Int} (hb : selfBounds src = some (bs, be)) :
+    hasLocSeq src = .ok (locRange src).isSome := by
+  unfold hasLocSeq
+  cases hp : src.par with
+  | none => rw [locRange_noseq (by rw [hp]; rfl)]; rfl
+  | noseq => rw [locRange_noseq (by rw [hp]; rfl)]; rfl
+  | whole seq => rw [locRange_whole wf hp hb]; rfl
+  | chunk cs seq =>
+    have h := bounds_chunk wf hp hb
+    rw [locRange_chunk wf hp hb]
+    simp only [needBounds_of hb, bind, Except.bind, located]
+    rw [overlapInt_iff _ _ _ _ (by omega) h.1]
+    by_cases hov : max bs cs < min be (cs + (seq.length : Int))
+    · have : (bs < cs + (seq.length : Int) ∧ cs < be ∧ bs < be ∧ cs < cs + (seq.length : Int)) := by omega
+      simp only [hov, this, and_self, decide_true, if_true]; rfl
+    · have : ¬ (bs < cs + (seq.length : Int) ∧ cs < be ∧ bs < be ∧ cs < cs + (seq.length : Int)) := by omega
+      simp only [hov, this, decide_false, Bool.false_eq_true, if_false]; rfl
+
 /-! ### members on the new parent -/
-
-theorem liftG_mseq (rp : RPar) (k : Kind) (g : GChild)
-    (h : k ≠ .var ∨ (∀ a b s, rp ≠ .chunk a b s) ∨ variantFromDictDropsParent = false) :
-    (liftG rp k g).mseq = memberSeq rp g := by
-  unfold liftG
-  rcases h with h | h | h
-  · cases k <;> cases rp <;> simp_all
-  · cases k <;> cases rp <;> simp_all
-  · rw [h]; cases k <;> cases rp <;> simp
-
-end BioCantor.Proofs.Query
-
-namespace BioCantor.Proofs.Query
-open BioCantor BioCantor.Spec BioCantor.Spec.Query BioCantor.Model.Query
 
 theorem beq_result (a b : Result) : (a == b) = true ↔ a = b := by
   simp only [beq_iff_eq]
@@ -116,43 +222,26 @@ def RPShape (src : Source) (rp : RPar) : Prop :=
   | .none => True
   | .noseq => True
   | .whole seq => src.par = .whole seq
-  | .chunk a b _ => a ≤ b ∧ src.par.hasSeq = true
+  | .chunk a b s => a ≤ b ∧ s ≠ [] ∧ src.par.hasSeq = true
 
 /-- a grandchild of a well-formed source rebuilt on a parent `rp` the model can produce for it: its sequence is
     the specified one -/
 theorem gc_mseq_norm (src : Source) (wf : SrcWF src) (rp : RPar) (hshape : RPShape src rp)
     (c : Child) (hc : c ∈ src.children) (g : GChild) (hg : g ∈ c.gcs) :
-    (liftG rp c.kind g).mseq.norm = (expectMSeq rp g).norm := by
+    (memberSeq rp g).norm = (expectMSeq rp g).norm := by
   have hgv : g.start ≤ g.stop := (wf.hull c hc).2 g hg
   have hpar := wf.par
   unfold ParWF at hpar
   cases rp with
-  | none => rw [liftG_mseq _ _ _ (Or.inr (Or.inl (by intro a b s h; cases h)))]; rfl
-  | noseq => rw [liftG_mseq _ _ _ (Or.inr (Or.inl (by intro a b s h; cases h)))]; rfl
+  | none => rfl
+  | noseq => rfl
   | whole seq =>
     simp only [RPShape] at hshape
     rw [hshape] at hpar
-    rw [liftG_mseq _ _ _ (Or.inr (Or.inl (by intro a b s h; cases h)))]
-    exact memberSeq_norm_eq_expect _ g hgv ((hpar.2 c hc).2 g hg)
+    exact memberSeq_norm_eq_expect _ g hgv ⟨hpar.1, hpar.2 c hc g hg⟩
   | chunk a b s =>
     simp only [RPShape] at hshape
-    have hk : c.kind ≠ .var ∨ (∀ a b s, RPar.chunk a b s ≠ .chunk a b s) ∨ variantFromDictDropsParent = false := by
-      cases hv : variantFromDictDropsParent with
-      | false => exact Or.inr (Or.inr rfl)
-      | true =>
-        refine Or.inl ?_
-        cases hp : src.par with
-        | none => rw [hp] at hshape; simp [Par.hasSeq] at hshape
-        | noseq => rw [hp] at hshape; simp [Par.hasSeq] at hshape
-        | whole seq => rw [hp] at hpar; exact (hpar.2 c hc).1 hv
-        | chunk cs seq => rw [hp] at hpar; exact hpar.2.2 c hc hv
-    have hk' : c.kind ≠ .var ∨ (∀ a' b' s', RPar.chunk a b s ≠ .chunk a' b' s') ∨ variantFromDictDropsParent = false := by
-      rcases hk with h | h | h
-      · exact Or.inl h
-      · exact absurd rfl (h a b s)
-      · exact Or.inr (Or.inr h)
-    rw [liftG_mseq _ _ _ hk']
-    exact memberSeq_norm_eq_expect _ g hgv hshape.1
+    exact memberSeq_norm_eq_expect _ g hgv ⟨hshape.2.1, hshape.1⟩
 
 /-- members of a well-formed source rebuilt on a parent `rp` the model can produce for it -/
 theorem members_norm_eq (src : Source) (wf : SrcWF src) (rp rp' : RPar) (hrp : rp.norm = rp'.norm)
@@ -161,108 +250,136 @@ theorem members_norm_eq (src : Source) (wf : SrcWF src) (rp rp' : RPar) (hrp : r
     (liftChildP rp c).norm = (expectChild rp' c).norm :=
   liftChildP_norm_eq rp rp' hrp c (fun g hg => gc_mseq_norm src wf rp hshape c hc g hg)
 
-/-- with F-C09c repaired, a range reaching beyond the sequence chunk is clamped instead of losing a base -/
-def Clampable (src : Source) (bs be start stop : Int) : Prop :=
-  repairedC09c = true ∧ src.par.isChunk = true ∧ max start bs < min stop be
+/-- where `_subset_parent` is asked for: a non-inverted range which — when the collection has sequence — lies
+    within the bounds (position queries) or, on a chunk, contains them (id queries: clamped to the bounds) -/
+def SubsetDomain (src : Source) (bs be start stop : Int) : Prop :=
+  start ≤ stop ∧
+  ((locRange src).isSome = true → start < stop →
+    (bs ≤ start ∧ stop ≤ be) ∨ (src.par.isChunk = true ∧ start ≤ bs ∧ be ≤ stop))
 
-/-- The parent of the result for new bounds inside the source's bounds (or, with F-C09c repaired, overlapping the
-    chunk): `_subset_parent` succeeds and carries, in normal form, exactly the source's sequence restricted to the
-    new bounds. -/
+theorem subsetParent_null (src : Source) (bs be : Int) (hb : selfBounds src = some (bs, be)) (start : Int) :
+    subsetParent src start start = .ok .none := by
+  unfold subsetParent
+  cases hp : src.par with
+  | none => rfl
+  | noseq => simp only [if_true]; rfl
+  | whole seq => simp only [needBounds_of hb, bind, Except.bind, located, if_true]; rfl
+  | chunk cs seq =>
+    simp only [needBounds_of hb, bind, Except.bind, located]
+    split
+    · rfl
+    · rfl
+
+theorem slice_ne_nil (l : List Char) (i j : Int) (h0 : 0 ≤ i) (h1 : i < j) (h2 : j ≤ l.length) : slice l i j ≠ [] := by
+  intro h
+  have := slice_length l i j h0 (by omega) h2
+  rw [h] at this
+  simp only [List.length_nil] at this
+  omega
+
+/-- The parent of the result: `_subset_parent` succeeds and carries, in normal form, exactly the source's sequence
+    restricted to the new bounds (to the stretch of them on which the collection has sequence). -/
 theorem subsetParent_spec (src : Source) (wf : SrcWF src) (bs be : Int) (hb : selfBounds src = some (bs, be))
-    (start stop : Int) (hlt : src.par.hasSeq = true → start < stop)
-    (hin : src.par.hasSeq = true → (bs ≤ start ∧ stop ≤ be) ∨ Clampable src bs be start stop) :
-    ∃ rp, subsetParent src start stop = .ok rp ∧ rp.norm = (expectPar src.par start stop).norm ∧
+    (start stop : Int) (hdom : SubsetDomain src bs be start stop) :
+    ∃ rp, subsetParent src start stop = .ok rp ∧ rp.norm = (expectPar src start stop).norm ∧
       (∀ a b, rp ≠ .chunk a b []) ∧ RPShape src rp := by
   have hpar := wf.par
   unfold ParWF at hpar
+  obtain ⟨hle, hdom⟩ := hdom
   cases hp : src.par with
   | none =>
-    refine ⟨RPar.none, subsetParent_none src hp _ _, rfl, ?_, trivial⟩
-    intro a b h; cases h
+    refine ⟨RPar.none, subsetParent_none src hp _ _, ?_, ?_, trivial⟩
+    · unfold expectPar; rw [hp]
+    · intro a b h; cases h
   | noseq =>
-    rw [hp] at hpar
-    simp only at hpar
-    unfold subsetParent
-    rw [hpar]
-    by_cases he : start = stop
-    · subst he
-      refine ⟨RPar.none, subsetParentG_noseq_null _ _ src hp _, rfl, ?_, trivial⟩
-      intro a b h; cases h
-    · refine ⟨RPar.noseq, subsetParentG_noseq _ src hp _ _ he, rfl, ?_, trivial⟩
-      intro a b h; cases h
+    refine ⟨_, subsetParent_noseq src hp start stop, ?_, ?_, ?_⟩
+    · unfold expectPar; rw [hp]; split <;> rfl
+    · intro a b; split <;> (intro h; cases h)
+    · split <;> trivial
   | whole seq =>
     rw [hp] at hpar
-    have hb' := selfBounds_whole hp hpar.1
-    rw [hb] at hb'
-    simp only [Option.some.injEq, Prod.mk.injEq] at hb'
-    obtain ⟨rfl, rfl⟩ := hb'
-    have hin' : 0 ≤ start ∧ stop ≤ (seq.length : Int) := by
-      rcases hin (by rw [hp]; rfl) with h | h
-      · exact h
-      · have := h.2.1; rw [hp] at this; simp [Par.isChunk] at this
-    have hlt' := hlt (by rw [hp]; rfl)
-    have hr : 0 ≤ start ∧ start < stop ∧ stop ≤ (seq.length : Int) := by omega
-    refine ⟨_, subsetParent_whole src seq hp hpar.1 start stop hr, whole_norm_eq_expect seq start stop hr, ?_, ?_⟩
-    · intro a b
-      by_cases hid : start = 0 ∧ stop = (seq.length : Int)
-      · simp only [hid, and_self, if_true]; intro h; cases h
-      · simp only [hid, if_false]
-        intro h
-        simp only [RPar.chunk.injEq] at h
-        have := slice_length seq start stop (by omega) (by omega) (by omega)
-        rw [h.2.2] at this
-        simp only [List.length_nil] at this
-        omega
-    · by_cases hid : start = 0 ∧ stop = (seq.length : Int)
-      · simp only [hid, and_self, if_true]; exact hp
-      · simp only [hid, if_false]; exact ⟨by omega, by rw [hp]; rfl⟩
-  | chunk cs seq =>
-    rw [hp] at hpar
-    have hb' := selfBounds_chunk hp hpar.1
-    rw [hb] at hb'
-    simp only [Option.some.injEq, Prod.mk.injEq] at hb'
-    obtain ⟨rfl, rfl⟩ := hb'
-    have hlt' := hlt (by rw [hp]; rfl)
-    by_cases hrange : bs ≤ start ∧ stop ≤ bs + (seq.length : Int)
-    · have hr : bs ≤ start ∧ start < stop ∧ stop ≤ bs + (seq.length : Int) := by omega
-      refine ⟨_, subsetParent_chunk src bs seq hp hpar.1 hpar.2.1 start stop hr,
-        chunk_norm_eq_expect bs seq start stop hr, ?_, ?_⟩
+    have hbw := bounds_whole wf hp hb
+    have hloc := locRange_whole wf hp hb
+    by_cases he : start = stop
+    · subst he
+      refine ⟨RPar.none, subsetParent_null src bs be hb start, ?_, ?_, trivial⟩
+      · unfold expectPar; rw [hp, hloc]; simp only [Par.seqAt, Int.le_refl, if_true]
+      · intro a b h; cases h
+    · have hlt : start < stop := by omega
+      have hin : bs ≤ start ∧ stop ≤ be := by
+        rcases hdom (by rw [hloc]; rfl) hlt with h | h
+        · exact h
+        · have := h.1; rw [hp] at this; simp [Par.isChunk] at this
+      refine ⟨_, subsetParent_whole src seq hp bs be hb ⟨hbw.1, hbw.2.2⟩ start stop ⟨hin.1, hlt, hin.2⟩, ?_, ?_, ?_⟩
+      · unfold expectPar
+        rw [hp, hloc, specBounds_eq_self hb]
+        have hns : ¬ stop ≤ start := by omega
+        simp only [Par.seqAt, hns, if_false, Option.some.injEq, Prod.mk.injEq]
+        by_cases hid : start = bs ∧ stop = be
+        · obtain ⟨h1, h2⟩ := hid
+          subst h1 h2
+          simp only [and_self, if_true, Par.toRPar]
+        · have hid' : ¬ (bs = start ∧ be = stop) := fun h => hid ⟨h.1.symm, h.2.symm⟩
+          have e1 : max start bs = start := by omega
+          have e2 : min stop be = stop := by omega
+          simp only [hid, hid', if_false, e1, e2, stretch, Int.sub_zero]
       · intro a b
-        by_cases hid : start = bs ∧ stop = bs + (seq.length : Int)
-        · simp only [hid, and_self, if_true]
-          intro h
-          simp only [RPar.chunk.injEq] at h
-          have : (seq.length : Int) = 0 := by rw [h.2.2]; rfl
-          omega
+        by_cases hid : start = bs ∧ stop = be
+        · simp only [hid, and_self, if_true]; intro h; cases h
         · simp only [hid, if_false]
           intro h
           simp only [RPar.chunk.injEq] at h
-          have := slice_length seq (start - bs) (stop - bs) (by omega) (by omega) (by omega)
-          rw [h.2.2] at this
-          simp only [List.length_nil] at this
-          omega
-      · by_cases hid : start = bs ∧ stop = bs + (seq.length : Int)
-        · simp only [hid, and_self, if_true]; exact ⟨by omega, by rw [hp]; rfl⟩
-        · simp only [hid, if_false]; exact ⟨by omega, by rw [hp]; rfl⟩
-    · -- only possible with F-C09c repaired: the range is clamped to the chunk
-      have hcl : Clampable src bs (bs + seq.length) start stop := by
-        rcases hin (by rw [hp]; rfl) with h | h
-        · exact absurd h hrange
-        · exact h
-      obtain ⟨hC, _, hov⟩ := hcl
-      have hnid : ¬ (start = bs ∧ stop = bs + (seq.length : Int)) := by omega
-      have hmax : max start bs < min stop (bs + (seq.length : Int)) := hov
-      unfold subsetParent
-      rw [hC]
-      refine ⟨_, subsetParentG_chunk_clamped _ src bs seq hp hpar.1 hpar.2.1 start stop hmax hnid, ?_, ?_, ?_⟩
-      · unfold expectPar stretch; rfl
-      · intro a b h
-        simp only [RPar.chunk.injEq] at h
-        have := slice_length seq (max start bs - bs) (min stop (bs + seq.length) - bs) (by omega) (by omega) (by omega)
-        rw [h.2.2] at this
-        simp only [List.length_nil] at this
-        omega
-      · exact ⟨by omega, by rw [hp]; rfl⟩
+          exact slice_ne_nil seq start stop (by omega) hlt (by omega) h.2.2
+      · by_cases hid : start = bs ∧ stop = be
+        · simp only [hid, and_self, if_true]; exact hp
+        · simp only [hid, if_false]
+          exact ⟨by omega, slice_ne_nil seq start stop (by omega) hlt (by omega), by rw [hp]; rfl⟩
+  | chunk cs seq =>
+    rw [hp] at hpar
+    have hbc := bounds_chunk wf hp hb
+    have hloc := locRange_chunk wf hp hb
+    by_cases hov : max bs cs < min be (cs + (seq.length : Int))
+    · have hin' := hbc.2 hov
+      rw [if_pos hov] at hloc
+      by_cases he : start = stop
+      · subst he
+        refine ⟨RPar.none, subsetParent_null src bs be hb start, ?_, ?_, trivial⟩
+        · unfold expectPar; rw [hp, hloc]; simp only [Par.seqAt, Int.le_refl, if_true]
+        · intro a b h; cases h
+      · have hlt : start < stop := by omega
+        have hd := hdom (by rw [hloc]; rfl) hlt
+        have hcl : max bs cs ≤ max start bs ∧ max start bs < min stop be ∧
+            min stop be ≤ min be (cs + (seq.length : Int)) := by
+          rcases hd with h | h <;> omega
+        refine ⟨_, subsetParent_chunk src cs seq hp bs be hb hpar.2.1 hbc.1 hov start stop he hcl, ?_, ?_, ?_⟩
+        · unfold expectPar
+          rw [hp, hloc, specBounds_eq_self hb]
+          have hns : ¬ stop ≤ start := by omega
+          simp only [Par.seqAt, hns, if_false, Option.some.injEq, Prod.mk.injEq]
+          by_cases hid : start = bs ∧ stop = be
+          · obtain ⟨h1, h2⟩ := hid
+            subst h1 h2
+            simp only [and_self, if_true, Par.toRPar]
+          · have hid' : ¬ (bs = start ∧ be = stop) := fun h => hid ⟨h.1.symm, h.2.symm⟩
+            simp only [hid, hid', if_false, stretch]
+        · intro a b
+          by_cases hid : start = bs ∧ stop = be
+          · simp only [hid, and_self, if_true]
+            intro h
+            simp only [RPar.chunk.injEq] at h
+            exact hpar.1 h.2.2
+          · simp only [hid, if_false]
+            intro h
+            simp only [RPar.chunk.injEq] at h
+            exact slice_ne_nil seq _ _ (by omega) (by omega) (by omega) h.2.2
+        · by_cases hid : start = bs ∧ stop = be
+          · simp only [hid, and_self, if_true]; exact ⟨by omega, hpar.1, by rw [hp]; rfl⟩
+          · simp only [hid, if_false]
+            exact ⟨by omega, slice_ne_nil seq _ _ (by omega) (by omega) (by omega), by rw [hp]; rfl⟩
+    · rw [if_neg hov] at hloc
+      refine ⟨RPar.none, subsetParent_chunk_off src cs seq hp bs be hb hbc.1 hov start stop, ?_, ?_, trivial⟩
+      · unfold expectPar; rw [hp, hloc]
+      · intro a b h; cases h
 
 end BioCantor.Proofs.Query
 
@@ -281,15 +398,31 @@ theorem nodup_guid_filter {l : List Child} (h : (l.map Child.guid).Nodup) (p : C
 theorem buildNew_meets (src : Source) (wf : SrcWF src) (bs be : Int) (hb : selfBounds src = some (bs, be))
     (keptM keptS : List Child) (hperm : keptM.Perm keptS) (hsub : ∀ c ∈ keptS, c ∈ src.children)
     (hnd : (keptS.map Child.guid).Nodup)
-    (start stop : Int) (hlt : src.par.hasSeq = true → start < stop)
-    (hin : src.par.hasSeq = true → (bs ≤ start ∧ stop ≤ be) ∨ Clampable src bs be start stop) :
+    (start stop : Int) (hdom : SubsetDomain src bs be start stop) :
     ∃ r, buildNew src keptM start stop = .ok r ∧ r.norm = (expectResult src start stop keptS).norm := by
-  obtain ⟨rp, hsp, hnorm, hne, hshape⟩ := subsetParent_spec src wf bs be hb start stop hlt hin
+  obtain ⟨rp, hsp, hnorm, hne, hshape⟩ := subsetParent_spec src wf bs be hb start stop hdom
   refine ⟨_, buildNew_eq src keptM start stop rp hsp hne
     (fun c hc => wf.hull c (hsub c (hperm.mem_iff.mp hc))), ?_⟩
   unfold expectResult
   exact result_norm_eq keptM keptS hperm hnd rp _ hnorm
     (fun c hc => members_norm_eq src wf rp _ hnorm hshape c (hsub c hc)) start stop
+
+/-- when the collection has sequence, its located range is the bounds (`SrcWF`: F-C09d excluded) -/
+theorem locRange_some {src : Source} (wf : SrcWF src) {bs be : Int} (hb : selfBounds src = some (bs, be))
+    {A B : Int} (h : locRange src = some (A, B)) : A = bs ∧ B = be := by
+  cases hp : src.par with
+  | none => rw [locRange_noseq (by rw [hp]; rfl)] at h; cases h
+  | noseq => rw [locRange_noseq (by rw [hp]; rfl)] at h; cases h
+  | whole seq =>
+    rw [locRange_whole wf hp hb] at h
+    simp only [Option.some.injEq, Prod.mk.injEq] at h
+    exact ⟨h.1.symm, h.2.symm⟩
+  | chunk cs seq =>
+    rw [locRange_chunk wf hp hb] at h
+    split at h
+    · simp only [Option.some.injEq, Prod.mk.injEq] at h
+      exact ⟨h.1.symm, h.2.symm⟩
+    · cases h
 
 /-- T1 + T2 (position queries): on every well-formed source with bounds, for ALL ranges and flag combinations, the
     modelled `query_by_position` gives an answer the specification accepts. -/
@@ -301,7 +434,7 @@ theorem queryByPosition_meets (src : Source) (q : PosQ) (wf : SrcWF src) (b : In
   rw [specBounds_eq_self hb]
   simp only []
   unfold queryByPosition
-  rw [validate_eq src q.s q.e bs be hb]
+  rw [checkSource_ok wf.cons, validate_eq src q.s q.e bs be hb]
   by_cases hv : validRange bs be (optOr q.s bs) (optOr q.e be) = true
   · obtain ⟨h0, hse, h1, h2⟩ := (validRange_iff _ _ _ _).mp hv
     have hkept := queryKept_eq src (optOr q.s bs) (optOr q.e be) q.cw q.codingOnly h0 hse
@@ -310,30 +443,41 @@ theorem queryByPosition_meets (src : Source) (q : PosQ) (wf : SrcWF src) (b : In
     have hbnd := resultBounds_eq_model q (optOr q.s bs) (optOr q.e be) _ _ hpermK
     have hcont := resultBounds_contains q (optOr q.s bs) (optOr q.e be)
       (specFilter src.children q.codingOnly q.cw (optOr q.s bs) (optOr q.e be))
-    simp only [hv, if_true, not_true_eq_false, if_false, bind, Except.bind, needBounds_of hb, hkept]
+    simp only [hv, if_true, not_true_eq_false, if_false, bind, Except.bind, needBounds_of hb, hkept,
+      hasLocSeq_eq wf hb]
     simp only [Bool.not_eq_true] at hbnd
     simp only [Bool.not_eq_true, hbnd]
     generalize hrb : resultBounds q (optOr q.s bs) (optOr q.e be)
       (specFilter src.children q.codingOnly q.cw (optOr q.s bs) (optOr q.e be)) = nb at *
     obtain ⟨ns, ne⟩ := nb
     simp only at hcont ⊢
-    by_cases hex : src.par.hasSeq = true ∧ (ns < bs ∨ ne > be)
-    · have hex' : src.par.hasSeq = true ∧ (ns < bs ∨ be < ne) := by
-        refine ⟨hex.1, ?_⟩; rcases hex.2 with h | h; exact Or.inl h; exact Or.inr (by omega)
-      simp only [hex, hex', if_true]
-      rfl
-    · have hex' : ¬ (src.par.hasSeq = true ∧ (ns < bs ∨ be < ne)) := by
-        intro h; apply hex; refine ⟨h.1, ?_⟩; rcases h.2 with h | h; exact Or.inl h; exact Or.inr (by omega)
-      simp only [hex, hex', if_false]
+    cases hl : locRange src with
+    | none =>
+      simp only [Option.isSome_none, Bool.false_eq_true, false_and, if_false]
       obtain ⟨r, hr, hrn⟩ := buildNew_meets src wf bs be hb _ _ hpermK
         (fun c hc => (List.mem_filter.mp hc).1)
-        (nodup_guid_filter wf.guids _) ns ne (fun _ => by omega)
-        (fun hs => Or.inl (by
-          have : ¬ (ns < bs ∨ ne > be) := fun h => hex ⟨hs, h⟩
-          omega))
+        (nodup_guid_filter wf.guids _) ns ne
+        ⟨by omega, fun h => by rw [hl] at h; cases h⟩
       rw [hr]
       simp only [toAns, meets, beq_iff_eq]
       exact hrn
+    | some ab =>
+      obtain ⟨A, B⟩ := ab
+      obtain ⟨rfl, rfl⟩ := locRange_some wf hb hl
+      simp only [Option.isSome_some, true_and]
+      by_cases hex : ns < A ∨ ne > B
+      · have hex' : (ns < optOr q.s A ∨ optOr q.e B < ne) ∧ (ns < A ∨ B < ne) := by omega
+        simp only [hex, hex', and_self, if_true, decide_true]
+        rfl
+      · have hex' : ¬ ((ns < optOr q.s A ∨ optOr q.e B < ne) ∧ (ns < A ∨ B < ne)) := by omega
+        simp only [hex, hex', if_false, decide_false, Bool.false_eq_true, and_false]
+        obtain ⟨r, hr, hrn⟩ := buildNew_meets src wf A B hb _ _ hpermK
+          (fun c hc => (List.mem_filter.mp hc).1)
+          (nodup_guid_filter wf.guids _) ns ne
+          ⟨by omega, fun _ _ => Or.inl (by omega)⟩
+        rw [hr]
+        simp only [toAns, meets, beq_iff_eq]
+        exact hrn
   · simp only [hv, if_false, Bool.false_eq_true]
     rfl
 
